@@ -40,6 +40,9 @@ type HTTPOutcome struct {
 	Status int
 	Header http.Header
 	Body   []byte
+	// Damage, for Kind serve / lost-response: the link alters what the server receives
+	DamageBody   func([]byte) []byte
+	DamageHeader func(http.Header)
 }
 
 type Fabric struct {
@@ -119,7 +122,20 @@ func (f *Fabric) RoundTrip(req *http.Request) (*http.Response, error) {
 		r.Status = out.Status
 		return &http.Response{StatusCode: out.Status, Status: http.StatusText(out.Status), Header: cloneHeader(out.Header), Body: io.NopCloser(bytes.NewReader(out.Body)), Request: req, ProtoMajor: 1, ProtoMinor: 1}, nil
 	case "serve", "lost-response":
-		resp := f.Serve(r)
+		sr := r
+		if out.DamageBody != nil || out.DamageHeader != nil {
+			cp := *r
+			cp.Header = r.Header.Clone()
+			cp.Body = append([]byte(nil), r.Body...)
+			if out.DamageBody != nil {
+				cp.Body = out.DamageBody(cp.Body)
+			}
+			if out.DamageHeader != nil {
+				out.DamageHeader(cp.Header)
+			}
+			sr = &cp
+		}
+		resp := f.Serve(sr)
 		r.Status = resp.StatusCode
 		if out.Kind == "lost-response" {
 			return nil, errConnReset
